@@ -1,8 +1,244 @@
-/- line-protocol engine `map` (stub: answers bad-op until the engine is built) -/
+/- line-protocol engine `map` (C17): operation histories over mappings and sets with a configurable
+   user hash / equality.
+
+   `map mrun <k0> <hk> <m> <badc> <badkind> <eqerrc> <op> <op> …`   mapping history
+   `map srun <k0> <hk> <m> <badc> <badkind> <eqerrc> <op> <op> …`   set history
+
+   hash(k) = if k % k0 == badc then (-1 | 2^64 | error) else (k % hk) % m
+   eq(a,b) = if a % k0 == eqerrc || b % k0 == eqerrc then error else a % k0 == b % k0
+   Version 0 is the empty collection; every version-producing op appends one version (possibly an error).
+   The answer is the dump of every version (after the whole history has run) and of every query op. -/
+import XrayModel.HashMap
+open XrayModel.HM
+namespace XrayDriver.MapEng
+
+structure Cfg where
+  k0 : Int
+  hk : Int
+  m : Int
+  badc : Int
+  badkind : Int
+  eqerrc : Int
+
+def Cfg.hash (c : Cfg) (k : Int) : Res Int :=
+  if c.badc ≥ 0 ∧ k % c.k0 = c.badc then
+    (if c.badkind = 1 then .ok (-1)
+     else if c.badkind = 2 then .ok 18446744073709551616
+     else .error (.err "boom"))
+  else .ok ((k % c.hk) % c.m)
+
+def Cfg.eq (c : Cfg) (a b : Int) : Res Bool :=
+  if c.eqerrc ≥ 0 ∧ (a % c.k0 = c.eqerrc ∨ b % c.k0 = c.eqerrc) then .error (.err "eqboom")
+  else .ok (a % c.k0 == b % c.k0)
+
+def keyUniverse : List Int := [0, 1, 2, 3, 4, 5, 6, 7]
+
+def showErr : Err → String
+  | .err "hash is out of bounds" => "!oob"
+  | .err "hash out of bounds" => "!oob"
+  | .err "key not found" => "!nf"
+  | .err "item not found" => "!nf"
+  | .err _ => "!user"
+  | .panic _ => "!panic"
+
+def showRes {α : Type} (f : α → String) : Res α → String
+  | .ok a => f a
+  | .error e => showErr e
+
+def showOpt : Option Int → String
+  | none => "n"
+  | some v => toString v
+
+def showBool (b : Bool) : String := if b then "t" else "f"
+
+def commas (l : List String) : String := String.intercalate "," l
+
+def showBuckets {V : Type} (sv : Int × V → String) (t : Table Int V) : String :=
+  String.intercalate ";" (t.buckets.map (fun hb => toString hb.1 ++ "[" ++ String.intercalate "+" (hb.2.map sv) ++ "]"))
+
+/-- callbacks used by every `ufk` op -/
+def onEmpty (k : Int) : Res Int := if k = 7 then .error (.err "oe") else .ok (k * 10 + 1)
+def onOcc (k v : Int) : Res Int := if v % 10 = 3 then .error (.err "oc") else .ok ((v + k + 1) % 100)
+/-- function used by every `mv` op -/
+def mvFn (v : Int) : Res Int := if v = 13 then .error (.err "mf") else .ok ((v * 3 + 1) % 100)
+
+def parseInts (s : String) : Option (List Int) :=
+  if s = "" then some [] else (s.splitOn ",").mapM String.toInt?
+
+def parsePairs (s : String) : Option (List (Int × Int)) :=
+  if s = "" then some [] else
+    (s.splitOn ",").mapM (fun p => match p.splitOn "=" with
+      | [a, b] => do let x ← a.toInt?; let y ← b.toInt?; pure (x, y)
+      | _ => none)
+
+abbrev MT := Table Int Int
+abbrev ST := Table Int Unit
+
+structure St (T : Type) where
+  vers : Array (Res T)
+  results : Array String
+
+def getVer {T : Type} (st : St T) (s : String) : Option (Res T) :=
+  match s.toNat? with
+  | none => none
+  | some i => st.vers[i]?
+
+def bind1 {T α : Type} (a : Res T) (f : T → Res α) : Res α :=
+  match a with
+  | .error e => .error e
+  | .ok t => f t
+
+def bind2 {T α : Type} (a b : Res T) (f : T → T → Res α) : Res α :=
+  match a with
+  | .error e => .error e
+  | .ok x => match b with
+    | .error e => .error e
+    | .ok y => f x y
+
+def pushV {T : Type} (st : St T) (v : Res T) : St T := { st with vers := st.vers.push v }
+def pushR {T : Type} (st : St T) (r : String) : St T := { st with results := st.results.push r }
+
+/-- one mapping op -/
+def mstep (c : Cfg) (st : St MT) (op : String) : Option (St MT) :=
+  let H := c.hash
+  let E := c.eq
+  match op.splitOn ":" with
+  | ["set", s, k, v] => do
+    let t ← getVer st s; let k ← k.toInt?; let v ← v.toInt?
+    pure (pushV st (bind1 t fun t => set H E t k v))
+  | ["sd", s, k, v] => do
+    let t ← getVer st s; let k ← k.toInt?
+    let v : Res Int ← if v = "E" then some (.error (.err "verr")) else v.toInt?.map .ok
+    pure (pushV st (bind1 t fun t => setDefault H E t k (fun _ => v)))
+  | ["pop", s, k] => do
+    let t ← getVer st s; let k ← k.toInt?
+    pure (pushV st (bind1 t fun t => pop H E t k))
+  | ["dis", s, k] => do
+    let t ← getVer st s; let k ← k.toInt?
+    pure (pushV st (bind1 t fun t => discard H E t k))
+  | ["upd", s, kvs] => do
+    let t ← getVer st s; let kvs ← parsePairs kvs
+    pure (pushV st (bind1 t fun t => update H E t (kvs.map .ok)))
+  | ["updm", s, s2] => do
+    let t ← getVer st s; let t2 ← getVer st s2
+    pure (pushV st (bind2 t t2 fun t t2 => updateFromMapping H E t t2))
+  | ["ufk", s, ks] => do
+    let t ← getVer st s; let ks ← parseInts ks
+    pure (pushV st (bind1 t fun t => updateFromKeys H E onEmpty onOcc t (ks.map .ok)))
+  | ["cnt", s, ks] => do
+    let t ← getVer st s; let ks ← parseInts ks
+    pure (pushV st (bind1 t fun t => updateCounter H E t (ks.map .ok)))
+  | ["clr", s] => do
+    let t ← getVer st s
+    pure (pushV st (bind1 t fun t => .ok (clear t)))
+  | ["mv", s] => do
+    let t ← getVer st s
+    pure (pushV st (bind1 t fun t => mapValues H E mvFn t))
+  | ["eq", s, s2] => do
+    let t ← getVer st s; let t2 ← getVer st s2
+    pure (pushR st (showRes showBool (bind2 t t2 fun a b => dynEq H E (fun x y => .ok (x == y)) a b)))
+  | ["g2", s, k] => do
+    let t ← getVer st s; let k ← k.toInt?
+    pure (pushR st (showRes toString (bind1 t fun t => get2 H E t k)))
+  | ["has", s, k] => do
+    let t ← getVer st s; let k ← k.toInt?
+    pure (pushR st (showRes showBool (bind1 t fun t => contains H E t k)))
+  | _ => none
+
+def dumpM (c : Cfg) (t : Res MT) : String :=
+  match t with
+  | .error e => showErr e
+  | .ok t =>
+    let H := c.hash
+    let E := c.eq
+    "ok E=" ++ commas ((toList t).map fun kv => s!"{kv.1}:{kv.2}")
+      ++ " L=" ++ toString t.len
+      ++ " K=" ++ commas (keyUniverse.map fun u => showRes showOpt (lookup H E t u))
+      ++ " G=" ++ commas (keyUniverse.map fun u => showRes toString (get3 H E t u (fun _ => .ok (-1))))
+      ++ " H=" ++ showRes toString (dynHash (fun v => .ok v) t)
+      ++ " B=" ++ showBuckets (fun kv => s!"{kv.1}:{kv.2}") t
+
+/-- one set op -/
+def sstep (c : Cfg) (st : St ST) (op : String) : Option (St ST) :=
+  let H := c.hash
+  let E := c.eq
+  let bin (s s2 : String) (f : ST → ST → Res ST) : Option (St ST) := do
+    let a ← getVer st s; let b ← getVer st s2
+    pure (pushV st (bind2 a b f))
+  let rel (s s2 : String) (f : ST → ST → Res Bool) : Option (St ST) := do
+    let a ← getVer st s; let b ← getVer st s2
+    pure (pushR st (showRes showBool (bind2 a b f)))
+  match op.splitOn ":" with
+  | ["add", s, k] => do
+    let t ← getVer st s; let k ← k.toInt?
+    pure (pushV st (bind1 t fun t => sAdd H E t k))
+  | ["rem", s, k] => do
+    let t ← getVer st s; let k ← k.toInt?
+    pure (pushV st (bind1 t fun t => sRemove H E t k))
+  | ["dis", s, k] => do
+    let t ← getVer st s; let k ← k.toInt?
+    pure (pushV st (bind1 t fun t => sDiscard H E t k))
+  | ["upd", s, ks] => do
+    let t ← getVer st s; let ks ← parseInts ks
+    pure (pushV st (bind1 t fun t => sUpdate H E t (ks.map .ok)))
+  | ["clr", s] => do
+    let t ← getVer st s
+    pure (pushV st (bind1 t fun t => .ok (clear t)))
+  | ["or", s, s2] => bin s s2 (bitOr H E)
+  | ["and", s, s2] => bin s s2 (bitAnd H E)
+  | ["sub", s, s2] => bin s s2 (sSub H E)
+  | ["xor", s, s2] => bin s s2 (bitXor H E)
+  | ["eq", s, s2] => rel s s2 (sEq H E)
+  | ["le", s, s2] => rel s s2 (sLe H E)
+  | ["lt", s, s2] => rel s s2 (sLt H E)
+  | ["ge", s, s2] => rel s s2 (sGe H E)
+  | ["gt", s, s2] => rel s s2 (sGt H E)
+  | ["disj", s, s2] => rel s s2 (isDisjoint H E)
+  | _ => none
+
+def dumpS (c : Cfg) (t : Res ST) : String :=
+  match t with
+  | .error e => showErr e
+  | .ok t =>
+    "ok E=" ++ commas ((sToList t).map toString)
+      ++ " L=" ++ toString t.len
+      ++ " C=" ++ commas (keyUniverse.map fun u => showRes showBool (sContains c.hash c.eq t u))
+      ++ " H=" ++ toString (sHash t)
+      ++ " B=" ++ showBuckets (fun kv => toString kv.1) t
+
+def runOps {T : Type} (step : St T → String → Option (St T)) : St T → List String → Option (St T)
+  | st, [] => some st
+  | st, op :: rest =>
+    match step st op with
+    | none => none
+    | some st' => runOps step st' rest
+
+def parseCfg : List String → Option (Cfg × List String)
+  | k0 :: hk :: m :: badc :: badkind :: eqerrc :: ops => do
+    let k0 ← k0.toInt?; let hk ← hk.toInt?; let m ← m.toInt?
+    let badc ← badc.toInt?; let badkind ← badkind.toInt?; let eqerrc ← eqerrc.toInt?
+    if k0 ≤ 0 ∨ hk ≤ 0 ∨ m ≤ 0 then none else
+    pure ({ k0, hk, m, badc, badkind, eqerrc }, ops)
+  | _ => none
+
+def finish {T : Type} (dump : Res T → String) (st : St T) : String :=
+  String.intercalate " | " (st.vers.toList.map dump) ++ " || " ++ String.intercalate " " st.results.toList
+
+end XrayDriver.MapEng
+
 namespace XrayDriver
+open MapEng
 
 def mapEngine (f : String) (args : List String) : String :=
-  match f, args with
+  match f, parseCfg args with
+  | "mrun", some (c, ops) =>
+    match runOps (mstep c) { vers := #[.ok empty], results := #[] } ops with
+    | none => "bad-op"
+    | some st => finish (dumpM c) st
+  | "srun", some (c, ops) =>
+    match runOps (sstep c) { vers := #[.ok empty], results := #[] } ops with
+    | none => "bad-op"
+    | some st => finish (dumpS c) st
   | _, _ => "bad-op"
 
 end XrayDriver
